@@ -66,7 +66,14 @@ func runFileSeq(root string, seqOps []int) string {
 	path := filepath.Join(dir, "rules.json")
 	content := m.P1
 	_ = os.WriteFile(path, []byte(content), 0o644)
-	ds := fileds.NewFileDataSource(path, datasource.NewFlowRulesHandler(datasource.FlowRuleJsonArrayParser))
+	// two handlers of different wire formats on the one datasource: the first cannot decode what the file holds
+	// (it reports a conversion error for every payload); the second, the flow handler, is the one observed
+	other := datasource.NewDefaultPropertyHandler(
+		func(src []byte) (interface{}, error) {
+			return nil, datasource.NewError(datasource.ConvertSourceError, "not this handler's format")
+		},
+		func(interface{}) error { return nil })
+	ds := fileds.NewFileDataSource(path, other, datasource.NewFlowRulesHandler(datasource.FlowRuleJsonArrayParser))
 	if err := ds.Initialize(); err != nil {
 		return "Initialize failed: " + err.Error()
 	}
